@@ -275,6 +275,28 @@ func scenarios(r *hlib.Rng) []In {
 		}
 		out = append(out, in)
 	}
+	// wide block ranges: certificates that span more than 10000 blocks, with bridges and claims in the blocks at distance 100, 256, 500,
+	// 1000, 1024, 2000, 2048, 4096, 5000, 8192, 10000, 10001 from the certificate's first block (any reading of the range in
+	// windows has its window boundaries there); two such certificates in a row (no size limit: the model's executable cut
+	// loop is capped at 4096 iterations)
+	for _, flow := range []string{"", "fep"} {
+		hh := &hist{r: r}
+		in := In{Retry: true, Flow: flow, Tag: "wide-range"}
+		dist := []uint64{100, 256, 500, 1000, 1024, 2000, 2048, 4096, 5000, 8192, 10000, 10001}
+		for round := 0; round < 2; round++ {
+			in.Steps = append(in.Steps, hh.block(0, 1, 1))
+			prev := uint64(0)
+			for i, d := range dist {
+				in.Steps = append(in.Steps, hh.block(d-prev-1, 1, i%2))
+				prev = d
+			}
+			in.Steps = append(in.Steps, epoch(0))
+			in.Steps = append(in.Steps, settleLast()...)
+		}
+		in.Steps = append(in.Steps, epoch(0))
+		in.Steps = append(in.Steps, settleLast()...)
+		out = append(out, in)
+	}
 	return out
 }
 
